@@ -254,3 +254,97 @@ def replay_nan(model, params, clause, info):
     bad = [v for v in r["violations"] if not any(p.fullmatch("bounded:" + v["key"]) for p in pats)]
     return {"violates": bool(bad), "detail": "; ".join(f"{v['key']}: {v['detail']}" for v in bad[:5])[:700] or "NaN patterns agree with deletion on the real code (known findings aside)",
             "entry": {"module": "contracts.C16_nan_policy", "function": "replay_nan", "args": [model, list(params), clause, info]}}
+
+
+# ------------------------------------------------------------------ prediction mean under mask / fill ----------------------------
+PS = "gpytorch.models.exact_prediction_strategies.DefaultPredictionStrategy"
+
+
+@case("C16", clause="posterior_mean_mask", expand=lambda ix: [()], replay=lambda *a: replay_nan(*a), functions=[f"{PS}._mean_cache", f"{PS}.exact_predictive_mean"])
+def posterior_mean_mask(c):
+    """mask: mean_cache holds, at the observed positions, SOLVE(A[obs, obs], (y - m)[obs]) (the solve of the training system with the missing rows and
+    columns DELETED; A = covariance of likelihood(train prior)) and NaN elsewhere; the predictive mean is m* + K*x[:, obs] @ mean_cache[obs] -- the
+    conditional mean on the data set without the missing observations (kernel entries depend on pairs of inputs only, so A[obs, obs] IS the training
+    covariance of the deleted data set)"""
+    it, ctx = c.it, c.ctx
+    nan_model(c)
+    n, s = c.size("n"), c.size("s")
+    from contracts.dist_spec import make_mvn
+    prior = make_mvn(c, "train_prior", [], n.t)
+    y = sym_tensor("y", [n.t])
+    M = sym_tensor("marginal_mean", [n.t])
+    A = sym_tensor("A", [n.t, n.t], is_linop=True, symmetric=True)
+    A.meta["evaluate_kernel_is_self"] = True
+    marg = Stub("likelihood(train_prior)", attrs={"loc": M, "mean": M, "lazy_covariance_matrix": A}, isa=("MultivariateNormal",))
+    lik = Stub("likelihood", methods={"__call__": lambda *a, **k: marg}, isa=("Likelihood",))
+    obs, calls = observed_contract(c, y, [n.t])
+    SOL = sym_tensor("SOLVE_masked", [n.t])
+    SOL.meta = {"masked_by": obs, "uf": SOL.meta.get("uf")}
+    solves = []
+
+    def masked_linop(it_, ctx_, a, k):
+        base, rm, cm = a
+        def solve(rhs):
+            solves.append((base, rm, cm, rhs))
+            return Stub("solve_result", methods={"squeeze": lambda *d: SOL})
+        return Stub("MaskedLinearOperator(A, obs, obs)", methods={"solve": solve}, isa=("LinearOperator",))
+
+    it.optable["linear_operator.operators.MaskedLinearOperator"] = masked_linop
+    ci = it.index.get_class(PS)
+    o = VObj(ci, label="DefaultPredictionStrategy")
+    o.fields.update({"_train_shape": size_tuple([n.t]), "train_prior_dist": prior, "train_labels": y, "likelihood": lik, "train_inputs": VList([sym_tensor("X", [n.t, c.size("d").t])]),
+                     "_last_test_train_covar": NONE})
+    c.ctx.classattrs[("gpytorch.settings.detach_test_caches", "_state")] = TRUE
+    cache = it.call(ctx, c.getattr(o, "_mean_cache"), [VStr("mask")], {})
+    i = ivar("i")
+    c.assume(z3.And(i >= 0, i < n.t))
+    ok = len(solves) == 1
+    c.prove("mean_cache.mask.one_solve_of_the_masked_training_system", z3.BoolVal(ok))
+    if not ok:
+        return
+    base, rm, cm, rhs = solves[0]
+    c.prove("mean_cache.mask.system_is_A_masked_by_observed_on_both_sides", z3.And(z3.BoolVal(base is A), rm.at_dims([i]) == obs.at([i]), cm.at_dims([i]) == obs.at([i])))
+    mk = rhs.meta.get("masked_by")
+    c.prove("mean_cache.mask.rhs_is_(y - m)_at_the_observed_positions", z3.And(z3.BoolVal(mk is not None and rhs.meta.get("masked_at") == 0 and len(rhs.dims) == 2), mk.at_dims([i]) == obs.at([i]),
+                                                                            rhs.at([i, z3.IntVal(0)]) == y.at([i]) - M.at([i])) if mk is not None and len(rhs.dims) == 2 else z3.BoolVal(False))
+    c.prove("mean_cache.mask.value", z3.And(z3.BoolVal(len(cache.dims) == 1), cache.dims[0].size == n.t, cache.at([i]) == z3.If(obs.at([i]), SOL.at([i]), NANV)) if len(cache.dims) == 1 else z3.BoolVal(False))
+    # prediction: the observed mask is re-derived from the NaN pattern of the cache (same callee), the product runs over observed columns only
+    it.attr_hooks.append(lambda it_, ctx_, obj, name: cache if (obj is o and name == "mean_cache") else None)
+    set_policy(c, "mask")
+    tm = sym_tensor("test_mean", [s.t])
+    T = sym_tensor("test_train_covar", [s.t, n.t], is_linop=True)
+    it.optable.pop("linear_operator.operators.MaskedLinearOperator", None)
+    from engine import optable_torch as _ot
+    it.optable["linear_operator.operators.MaskedLinearOperator"] = _ot.T["linear_operator.operators.MaskedLinearOperator"]
+    it.optable["linear_operator.to_linear_operator"] = lambda it_, ctx_, a, k: a[0]
+    del calls[:]
+    res = it.call(ctx, c.getattr(o, "exact_predictive_mean"), [tm, T], {})
+    j = ivar("j")
+    c.assume(z3.And(j >= 0, j < s.t))
+    c.prove("predictive_mean.mask.observed_mask_taken_from_the_cache", z3.BoolVal(len(calls) == 1 and calls[0][0] is cache))
+    from engine.dom_elem import mk_sum
+    want = tm.at([j]) + mk_sum(lambda k: z3.If(obs.at([k]), T.at([j, k]), z3.RealVal(0)) * cache.at([k]), n.t)
+    c.prove("predictive_mean.mask.is_test_mean_plus_sum_over_observed_columns", z3.And(z3.BoolVal(len(res.dims) == 1), res.dims[0].size == s.t, res.at([j]) == want) if len(res.dims) == 1 else z3.BoolVal(False))
+
+
+@case("C16", clause="posterior_mean_fill", expand=lambda ix: [()], replay=lambda *a: replay_nan(*a), functions=[f"{PS}.exact_predictive_mean"])
+def posterior_mean_fill(c):
+    """fill: the columns of K*x belonging to missing entries (NaN in the mean cache) are zeroed and the NaNs replaced by the finite fill value, so the
+    product is the sum over the observed columns only: m* + sum_{k observed} K*x[j, k] mean_cache[k]"""
+    it, ctx = c.it, c.ctx
+    nan_model(c)
+    n, s = c.size("n"), c.size("s")
+    ci = it.index.get_class(PS)
+    o = VObj(ci, label="DefaultPredictionStrategy")
+    cache = sym_tensor("mean_cache", [n.t])
+    it.attr_hooks.append(lambda it_, ctx_, obj, name: cache if (obj is o and name == "mean_cache") else None)
+    set_policy(c, "fill")
+    tm = sym_tensor("test_mean", [s.t])
+    T = sym_tensor("test_train_covar", [s.t, n.t])
+    res = it.call(ctx, c.getattr(o, "exact_predictive_mean"), [tm, T], {})
+    j = ivar("j")
+    c.assume(z3.And(j >= 0, j < s.t))
+    from engine.dom_elem import mk_sum
+    fv = it.class_getattr(ctx, c.cls(NP), "_fill_value")
+    want = tm.at([j]) + mk_sum(lambda k: (T.at([j, k]) * z3.If(cache.at([k]) == NANV, z3.RealVal(0), z3.RealVal(1))) * z3.If(cache.at([k]) == NANV, E.to_real(fv.t), cache.at([k])), n.t)
+    c.prove("predictive_mean.fill.is_test_mean_plus_sum_over_non_missing_columns", z3.And(z3.BoolVal(len(res.dims) == 1), res.dims[0].size == s.t, res.at([j]) == want) if len(res.dims) == 1 else z3.BoolVal(False))
